@@ -1460,6 +1460,28 @@ func (x *Exec) evalBuiltinSpec(ce *CEnv, name string, args []Expr) (*Val, bool) 
 		nv := *v
 		nv.Typ = t
 		return &nv, true
+	case "captured":
+		// captured(f, "name"): the current value of the variable `name` captured by
+		// the function literal f
+		v := x.eval(ce, args[0])
+		sname, ok := args[1].(*EString)
+		if !ok {
+			cfail("captured needs a string literal variable name")
+		}
+		if v.Fn == nil {
+			cfail("captured(): the first argument is not a function literal known at this point")
+		}
+		for k, fv := range v.Fn.FreeVars {
+			if fv.Name() == sname.V && k < len(v.Binds) {
+				pt, ok := fv.Type().(*types.Pointer)
+				if !ok {
+					cfail("captured(): unexpected free variable type")
+				}
+				loc := x.derefLoc(nil, nil, v.Binds[k])
+				return &Val{Typ: pt.Elem(), T: x.loadLoc(ce.st, loc)}, true
+			}
+		}
+		cfail("captured(): the literal does not capture %s", sname.V)
 	case "typetag":
 		// typetag(v): the dynamic type tag of an interface value (an integer);
 		// tagof("pkg.Type"): the tag of the named type. dyntype(v, "T") is
